@@ -5,7 +5,9 @@ usage: run_seeds.py [name ...]     (default: all)"""
 import json, os, shutil, subprocess, sys, time
 V = os.path.dirname(os.path.dirname(os.path.abspath(__file__)))
 # which checks are expected to see a seed (the property it was written for first)
-ALSO = {"C02_a": ["C09"], "C02_b": ["C09"], "C03_a": ["C09"], "C14_a": ["C09"], "C08_b": ["C09"], "C15_a": ["C09", "C16"], "C05_b": ["C11"],
+ALSO = {"C04_d": ["C10"], "C09_d": ["C02"], "C14_c": ["C13", "C15"], "C14_d": ["C15"], "C01_c": ["C14"], "C08_c": ["C09"], "C08_d": ["C15"], "C15_c": ["C08"],
+        "C15_d": ["C14", "C16"], "C10_c": ["C04"],
+        "C02_a": ["C09"], "C02_b": ["C09"], "C03_a": ["C09"], "C14_a": ["C09"], "C08_b": ["C09"], "C15_a": ["C09", "C16"], "C05_b": ["C11"],
         "C13_a": ["C15"], "C16_a": ["C15", "C13"]}
 def sh(cmd, **kw): return subprocess.run(cmd, shell=True, capture_output=True, text=True, **kw)
 def main():
@@ -35,6 +37,7 @@ def main():
                                         summary=[l for l in r.stdout.split("\n") if l.startswith(pid + " [")][-1:],
                                         undecided=[l for l in r.stderr.split("\n") if l.startswith("UNDECIDED")][:3])
         entry["detected_by"] = [p for p, c in entry["checks"].items() if c.get("rc") == 1]
+        results = json.load(open(resf)) if os.path.exists(resf) else {}      # re-read: several runners may work side by side
         results[n] = entry
         json.dump(results, open(resf, "w"), indent=1)
         print(n, {p: c.get("rc") for p, c in entry["checks"].items()}, flush=True)
